@@ -67,7 +67,7 @@ var c39Alpha = [ref.Fields][]string{
 	ref.FLinkedPlayer: {"", "JavaName;069a79f4-44e9-4726-a5be-fca90e38aaf5;00000000-0000-0000-0009-01f0e0d0c0b0"},
 	ref.FFromProxy:    {"1"},
 	ref.FSubscribeID:  {"123", "2147483647"},
-	ref.FVerifyCode:   {"x", "a b", strings.Repeat("v", 33)},
+	ref.FVerifyCode:   {"x", "a b", strings.Repeat("v", 33), ""},
 }
 
 // records: the base record, every single-field deviation, and (pairs=true) every two-field deviation.
